@@ -32,9 +32,11 @@ def encode(d, idx, enc):
         a = np.empty(len(vals), dtype=object)
         for i, v in enumerate(vals):
             a[i] = v
+    elif e["dtype"] == "<U3":
+        a = np.array(vals)          # the width numpy infers (<U1 when every sample is labeled)
     else:
         a = np.array(vals, dtype=e["dtype"])
-    return arrays.SymNd(a, e["dtype"]) if d.sym else a
+    return arrays.SymNd(a, a.dtype) if d.sym else a
 
 
 def class_index(v, enc, K):
@@ -62,38 +64,40 @@ def _stub_clf(d, enc, K, gen=7):
 
 
 # ---------------------------------------------------------------- pool strategies
-def _pool_call(d, name, enc, seed, X, y, K, b):
+def _pool_call(d, name, enc, seed, X, y, K, b, cand=None):
     P = pl.pool()
     m = ENC[enc]["missing"]
     if name == "RandomSampling":
-        return P.RandomSampling(missing_label=m, random_state=seed).query(X, y, batch_size=b, return_utilities=True)
+        return P.RandomSampling(missing_label=m, random_state=seed).query(X, y, candidates=cand, batch_size=b, return_utilities=True)
     if name.startswith("UncertaintySampling"):
         method = name.split("[")[1][:-1]
         return P.UncertaintySampling(method=method, missing_label=m, random_state=seed).query(
-            X, y, _stub_clf(d, enc, K), fit_clf=False, batch_size=b, return_utilities=True)
+            X, y, _stub_clf(d, enc, K), fit_clf=False, candidates=cand, batch_size=b, return_utilities=True)
     if name == "CoreSet":
-        return P.CoreSet(missing_label=m, random_state=seed).query(X, y, batch_size=b, return_utilities=True)
+        return P.CoreSet(missing_label=m, random_state=seed).query(X, y, candidates=cand, batch_size=b, return_utilities=True)
     if name == "GreedySamplingX":
-        return P.GreedySamplingX(missing_label=m, random_state=seed).query(X, y, batch_size=b, return_utilities=True)
+        return P.GreedySamplingX(missing_label=m, random_state=seed).query(X, y, candidates=cand, batch_size=b, return_utilities=True)
     if name == "QueryByCommittee":
         ens = [_stub_clf(d, enc, K, gen=1), _stub_clf(d, enc, K, gen=2)]
-        return P.QueryByCommittee(missing_label=m, random_state=seed).query(X, y, ens, fit_ensemble=False, batch_size=b,
-                                                                          return_utilities=True)
+        return P.QueryByCommittee(missing_label=m, random_state=seed).query(X, y, ens, fit_ensemble=False, candidates=cand,
+                                                                          batch_size=b, return_utilities=True)
     raise ValueError(name)
 
 
-def sc_pool(d, name, n, K, encs, b):
+def sc_pool(d, name, n, K, encs, b, rows=False):
     idx = [d.choose(f"label{i}", [-1] + list(range(K))) for i in range(n)]
-    if all(k >= 0 for k in idx):
+    if all(k >= 0 for k in idx) and not rows:
         if d.sym:
             raise core.PathAbort("no candidate")
         return
     X = d.arr([[d.fl(f"x{i}", lo=-4.0, hi=4.0)] for i in range(n)], shape=(n, 1))
+    # candidates given as feature rows (the label array may then be fully labeled)
+    cand = d.arr([[d.fl(f"c{i}", lo=-4.0, hi=4.0)] for i in range(2)], shape=(2, 1)) if rows else None
     seed = d.integer("seed", 0, 2 ** 31 - 2)
     outs = []
     for enc in encs:
         try:
-            outs.append(_pool_call(d, name, enc, seed, X, encode(d, idx, enc), K, b))
+            outs.append(_pool_call(d, name, enc, seed, X, encode(d, idx, enc), K, b, cand))
         except (core.Unencodable, core.PathAbort):
             raise
         except Exception as e:
@@ -104,7 +108,7 @@ def sc_pool(d, name, n, K, encs, b):
         d.prove([int(i) for i in o[0]] == [int(i) for i in ref[0]], "same_indices_under_every_encoding",
                 info=dict(encoding=enc, got=[int(i) for i in o[0]], reference=[int(i) for i in ref[0]]))
         d.prove(d.eq_arr(o[1], ref[1], 1e-9), "same_utilities_under_every_encoding", info=dict(encoding=enc))
-    d.witness(sum(1 for k in idx if k < 0) >= 2, "two_candidates")
+    d.witness(sum(1 for k in idx if k < 0) >= 2 or (rows and all(k >= 0 for k in idx)), "two_candidates")
 
 
 # ---------------------------------------------------------------- ParzenWindowClassifier
@@ -279,6 +283,10 @@ def _cfg_pool(tier):
             if name in ("QueryByCommittee", "UncertaintySampling[entropy]") and tier == "quick" and encs != PAIRS_Q[0]:
                 continue
             out.append(dict(name=name, n=3, K=2, encs=encs, b=2))
+    # candidates as feature rows, incl. fully labeled label arrays (whose string dtype is narrower than the sentinel)
+    for name in ("CoreSet", "GreedySamplingX", "UncertaintySampling[least_confident]", "RandomSampling"):
+        for encs in ([PAIRS_Q[1]] if tier == "quick" else PAIRS_Q):
+            out.append(dict(name=name, n=2, K=2, encs=encs, b=2, rows=True))
     return out
 
 
